@@ -559,38 +559,68 @@ def summarise(module, corrected: bool, entry='mutual_info_estimator_numba'):
     params = [a.arg for a in f.args.args]
     env = {params[0]: K('vec', 'A'), params[1]: K('vec', 'B'), params[2]: K('ratio',), params[3]: K('flag', corrected)}
     st = {'domains': [], 'guards': [], 'ret': None}
-    try:
-        for s in f.body:
+    flag = params[3]
+    ratio_name = params[2]
+
+    def is_other_rule(s):
+        # (a) the sampling block `if <ratio> < 1: Y, X = stratified_subsampling(...)` (C04; not taken at ratio 1)
+        if isinstance(s.test, ast.Compare) and isinstance(s.test.left, ast.Name) and s.test.left.id == ratio_name and not s.orelse:
+            return True
+        # (b) the self-pair test `if <...>: flag = False` (C02.2 / C03.5)
+        if not s.orelse and all(isinstance(b, ast.Assign) and len(b.targets) == 1 and isinstance(b.targets[0], ast.Name) and b.targets[0].id == flag for b in s.body):
+            return True
+        return False
+
+    results = []
+
+    def walk(body, env):
+        env = dict(env)
+        for i, s in enumerate(body):
+            if isinstance(s, ast.If) and is_other_rule(s):
+                continue
             if isinstance(s, ast.If):
-                continue   # self-pair test (C02/C03.5) and sampling block (C04)
+                # a branch at the entry level: both outcomes are separate paths through the estimator
+                rest = list(body[i + 1:])
+                walk(list(s.body) + rest, env)
+                walk(list(s.orelse) + rest, env)
+                return
+            st = {'domains': [], 'guards': [], 'ret': None}
             I.stmt(s, env, st)
             if st['ret'] is not None:
-                break
+                results.append(st['ret'])
+                return
+        raise Unknown('entry point does not return on a path')
+
+    try:
+        walk(list(f.body), env)
     except Unknown as u:
         u.interp = I
         raise
-    ret = st['ret']
-    if ret is None:
-        raise Unknown('entry point does not return')
-    if ret[0] != 'prod':
-        ret = K('prod', 1, (ret,))
-    ratio = [x for x in ret[2] if x == K('ratio',)]
-    rest = [x for x in ret[2] if x != K('ratio',)]
-    cs = []
-    for x in rest:
-        cs += I.contribs(x, {'domains': [], 'guards': []}, ret[1])
-    return I, len(ratio), cs
+    out = []
+    for ret in results:
+        if ret[0] != 'prod':
+            ret = K('prod', 1, (ret,))
+        ratio = [x for x in ret[2] if x == K('ratio',)]
+        rest = [x for x in ret[2] if x != K('ratio',)]
+        cs = []
+        for x in rest:
+            cs += I.contribs(x, {'domains': [], 'guards': []}, ret[1])
+        out.append((len(ratio), cs))
+    # all paths must agree for the caller to get a single summary; otherwise return the first disagreeing one last
+    I.paths = out
+    return I, out[0][0], out[0][1]
 
 
-def expected(corrected: bool):
-    iA = K('idx', K('vals', 'A'))
-    iB = K('idx', K('vals', 'B'))
-    pA = K('prob', frozenset([('A', iA)]), frozenset())
-    pB = K('prob', frozenset([('B', iB)]), frozenset())
-    skip1 = K('skip', K('cmp', '==', K('cnt', 'B', iB), K('const', 1)))
+def expected(corrected: bool, swapped: bool = False):
+    a, b = ('B', 'A') if swapped else ('A', 'B')
+    iA = K('idx', K('vals', a))
+    iB = K('idx', K('vals', b))
+    pA = K('prob', frozenset([(a, iA)]), frozenset())
+    pB = K('prob', frozenset([(b, iB)]), frozenset())
+    skip1 = K('skip', K('cmp', '==', K('cnt', b, iB), K('const', 1)))
 
     def cond(star):
-        p = K('prob', frozenset([('A', iA), ('B', iB)]), frozenset([('B', iB)]), star)
+        p = K('prob', frozenset([(a, iA), (b, iB)]), frozenset([(b, iB)]), star)
         return p, K('cmp', '!=', p, K('const', 0))
     pc, gpc = cond(False)
     ps, gps = cond(True)
